@@ -56,7 +56,7 @@ for path in sorted(glob.glob(os.path.join(HERE, 'pv', '*.py')) + glob.glob(os.pa
                         globals()['bad'] += 1
                 visit(child, local)
             elif isinstance(child, ast.ClassDef):
-                visit(child, enclosing | scope_names(child))
+                visit(child, enclosing)  # (names of the class body are not visible inside its methods)
             else:
                 visit(child, enclosing)
     visit(tree, set())
